@@ -72,6 +72,19 @@ def onceCfg (n : Nat) : Dcl.Cfg :=
     order := if syncOnceIsDoubleChecked then .bodyThenStore else .storeThenBody
     locks := syncOnceIsDoubleChecked && (0 < onceTables) && (onceTablesGuarded == onceTables) }
 
+/-- (*ExtensionInfo).TypeDescriptor / lazyInit / lazyInitSlow (internal/impl/extension.go): the stage word
+xi.init is stored on the lazy path only by the deferred `atomic.StoreUint32(&xi.init, FullInit)` of
+lazyInitSlow, after the body.  A PLAIN store of the stage word from inside the body (a helper written for
+package initialisation) is not a release: it is unordered with the body's other plain writes and may become
+visible before them — in this sequentially consistent model that is the variant in which the store takes
+effect before the body (`storeThenBody`). -/
+def extInfoCfg (n : Nat) : Dcl.Cfg :=
+  { writes := n
+    recheck := .flag
+    storeOnHit := false
+    order := if extInfoSlowPathShape && extInfoFlagOnlyAtomicOnLazyPath then .bodyThenStore else .storeThenBody
+    locks := extInfoFastPathsAtomic && extInfoSlowPathShape }
+
 /-- the global registries: every accessor takes globalMutex (writers exclusively) -/
 def regCfg (prog : Nat → Reg.Op) (ndecl : Nat → Nat) : Reg.Cfg :=
   { prog := prog, ndecl := ndecl
